@@ -284,6 +284,10 @@ theorem step_refines (s : State) (op : Op) (h : Inv s) :
         | some x => Spec.resize xs n x
         | none => none)
       (by intro t ht; exact AState.resizeRef_good t ht n i) h
+  | aappendsub v i n =>
+    exact stepA s v (fun t => t.appendSub i n)
+      (fun xs => if i + n ≤ xs.length then Spec.const (xs ++ (xs.drop i).take n) else none)
+      (by intro t ht; exact AState.appendSub_good t ht i n) h
   | aassignself v =>
     unfold step Spec.step StepOk obsS
     by_cases hv : v < 2
